@@ -257,6 +257,9 @@ class _Marshaller:
         self._write(TYPE_UNICODE)
         if not PYTHON3 and self.python_version < (3, 0):
             s = x.encode("utf8")
+        elif PYTHON3:
+            # marshal stores text as UTF-8 (with surrogatepass) and counts bytes
+            s = x.encode("utf-8", "surrogatepass")
         else:
             s = x
         self.w_long(len(s))
